@@ -27,8 +27,23 @@ class E1(Exception):
     pass
 
 
+class E1s(E1):
+    """subclass of E1: athrow(E1, E1s(...)) must deliver the E1s instance itself"""
+
+
 class E2(Exception):
     pass
+
+
+class Log(list):
+    """body log + the exception objects that entered `except` clauses (for identity checks)"""
+
+    def __init__(self):
+        super().__init__()
+        self.caught = []
+
+    def seen(self, e):
+        self.caught.append(e)
 
 
 class BE(BaseException):
@@ -39,7 +54,7 @@ def mkexc(tok, OOBData=None):
     if tok.startswith("OOB:"):
         return OOBData(int(tok[4:]))
     return {
-        "GE": GeneratorExit, "CE": asyncio.CancelledError, "E1": E1, "E2": E2, "BE": BE,
+        "GE": GeneratorExit, "CE": asyncio.CancelledError, "E1": E1, "E1s": E1s, "E2": E2, "BE": BE,
         "RT": RuntimeError, "TE": TypeError, "SAI": StopAsyncIteration, "SI": StopIteration,
     }[tok]()
 
@@ -70,7 +85,72 @@ def pv(v):
 # tokens for the Lean side
 
 
+EXC_CLASS = {"GE": GeneratorExit, "CE": asyncio.CancelledError, "E1": E1, "E1s": E1s, "E2": E2, "BE": BE,
+             "RT": RuntimeError, "TE": TypeError}
+
+# forms of athrow(): how (type, value, traceback) are passed.  "+t" appended = with a traceback object.
+#   i   athrow(instance)                     c   athrow(Class)
+#   ci  athrow(Class, instance of Class)     bi  athrow(Base, instance of a subclass)
+#   cv  athrow(Class, 7)                     cn  athrow(Class, None)
+ATHROW_FORMS = ["ci", "bi", "cv", "cn", "ci+t", "bi+t", "cv+t", "cn+t", "i", "c"]
+
+
+def athrow_effective(op):
+    """token of the exception that `coro.throw(type, value, tb)` raises (reference semantics)"""
+    if len(op) > 2 and op[2].startswith("bi"):
+        return {"E1": "E1s"}.get(op[1], op[1])
+    return op[1]
+
+
+def athrow_args(op, tb=None):
+    """(args tuple for athrow, given instance or None, expected type, expected args or None)
+    built from CPython's rules for throw(type, value, tb): an instance of `type` (or of a subclass) given
+    as value is raised itself; a non-exception value v gives type(v); None gives type()."""
+    tok = op[1]
+    form = op[2] if len(op) > 2 else "i"
+    with_tb = form.endswith("+t")
+    form = form.split("+")[0]
+    cls = EXC_CLASS[tok]
+    tbarg = (tb,) if with_tb else ()
+    if form == "i":
+        inst = cls("p", 3)
+        return (inst,), inst, cls, ("p", 3)
+    if form == "c":
+        return (cls,), None, cls, ()
+    if form == "ci":
+        inst = cls("p", 3)
+        return (cls, inst) + tbarg, inst, cls, ("p", 3)
+    if form == "bi":
+        if tok == "E1":
+            inst = E1s("p", 3)
+            return (E1, inst) + tbarg, inst, E1s, ("p", 3)
+        inst = cls("p", 3)
+        base = BaseException if not issubclass(cls, Exception) else Exception
+        return (base, inst) + tbarg, inst, cls, ("p", 3)
+    if form == "cv":
+        return (cls, 7) + tbarg, None, cls, (7,)
+    return (cls, None) + tbarg, None, cls, ()
+
+
+def make_tb():
+    try:
+        raise KeyError("tb-origin")
+    except KeyError as e:
+        return e.__traceback__
+
+
+def tb_contains(e, tb):
+    t = e.__traceback__
+    while t is not None:
+        if t is tb:
+            return True
+        t = t.tb_next
+    return False
+
+
 def op_tokens(op):
+    if op and op[0] == "at":
+        return f"at {athrow_effective(op)}"
     return " ".join(str(x) for x in op)
 
 
@@ -178,6 +258,7 @@ class _Src:
             for cls, b in s[2]:
                 self.emit(ind, f"except {CLS_PY[cls]} as _e:")
                 self.emit(ind + 1, "log.append('h' + canon_exc(_e))")
+                self.emit(ind + 1, "log.seen(_e)")
                 self.block(b, ind + 1, nested)
             self.emit(ind, "finally:")
             self.block(s[3], ind + 1, nested)
@@ -231,7 +312,7 @@ def compile_body(prog, mode, extra=None):
     key = (repr(prog), mode)
     fn = _cache.get(key)
     if fn is None:
-        ns = {"asyncio": asyncio, "E1": E1, "E2": E2, "cv": cv, "canon_exc": canon_exc}
+        ns = {"asyncio": asyncio, "E1": E1, "E1s": E1s, "E2": E2, "cv": cv, "canon_exc": canon_exc}
         ns.update(extra or {})
         oob_cls = ns.get("OOBData")
         ns["mkexc"] = lambda t: mkexc(t, oob_cls)
